@@ -116,6 +116,7 @@ impl J {
 struct Cx<'tcx> {
     tcx: TyCtxt<'tcx>,
     walk_crates: HashSet<String>,
+    closures: std::cell::RefCell<Vec<Instance<'tcx>>>,
 }
 
 #[derive(Clone, Copy)]
@@ -367,6 +368,13 @@ impl<'tcx> Cx<'tcx> {
                         o.push(("ak", J::s("closure")));
                         o.push(("def", J::S(self.path(*did))));
                         o.push(("args", self.generic_args(args)));
+                        if let Mode::Mono = mode {
+                            // closures handed to std combinators (Option::map, Ref::map ...) are never called from a
+                            // walked body: enqueue them where they are built
+                            let inst = Instance::new_raw(*did, args);
+                            o.push(("closure_key", J::S(format!("{}", inst))));
+                            self.closures.borrow_mut().push(inst);
+                        }
                     }
                     AggregateKind::RawPtr(t, m) => {
                         o.push(("ak", J::s("rawptr")));
@@ -771,7 +779,7 @@ impl rustc_driver::Callbacks for Dump {
             return Compilation::Continue;
         }
         let crate_name = tcx.crate_name(LOCAL_CRATE).to_string();
-        let cx = Cx { tcx, walk_crates: self.walk_crates.clone() };
+        let cx = Cx { tcx, walk_crates: self.walk_crates.clone(), closures: std::cell::RefCell::new(Vec::new()) };
         let out = rustc_middle::ty::print::with_no_trimmed_paths!({
             let mut top: Vec<(&'static str, J)> = vec![("crate", J::S(crate_name.clone()))];
             top.push((
@@ -867,6 +875,7 @@ fn dump_mono<'tcx>(cx: &Cx<'tcx>) -> J {
         o.extend(cx.fn_header(did));
         let mut found = Vec::new();
         o.extend(cx.body(&body, Mode::Mono, &mut found));
+        found.extend(cx.closures.borrow_mut().drain(..));
         insts.push(J::O(o));
         for f in found {
             let fdid = f.def_id();
